@@ -46,6 +46,7 @@ def workloads(tier):
     mols = {"kind": "molecules", "nmol": 3, "molsize": 2, "framework": 2, "edge": 9.0, "seed": 4}
     w.append(("canonical-ball", {"driver": "Canonical", "T": 400.0, "cycles": 3, "atoms": gas, "calc": {"kind": "soft"}, "table": [{"name": "d", "move": D(), "min": 1}, {"name": "b", "move": D("Box"), "interval": 2, "probability": 0.3}]}))
     w.append(("canonical-composite", {"driver": "Canonical", "T": 900.0, "cycles": 2, "atoms": mols, "calc": {"kind": "soft"}, "table": [{"name": "rot", "move": {"t": "D", "op": {"t": "Rotation"}}}, {"name": "dd", "move": {"t": "*", "part": D("Box"), "n": 2}, "probability": 2.0, "criteria": "canonical"}, {"name": "mix", "move": {"t": "+", "parts": [D("Sphere"), D("Ball")]}, "interval": 2, "criteria": "canonical"}]}))
+    w.append(("canonical-forced4", {"driver": "Canonical", "T": 700.0, "cycles": 6, "atoms": gas, "calc": {"kind": "soft"}, "table": [{"name": "alpha", "move": D(), "min": 1}, {"name": "beta", "move": D("Box"), "min": 1}, {"name": "gamma", "move": D("Sphere"), "min": 2}, {"name": "delta", "move": {"t": "D", "op": {"t": "Translation"}}, "min": 1}, {"name": "eps", "move": D()}]}))
     w.append(("hamiltonian", {"driver": "HamiltonianCanonical", "T": 500.0, "cycles": 1, "atoms": {"kind": "gas", "n": 3, "edge": 6.0, "pbc": False, "seed": 5, "extras": ["masses"]}, "calc": {"kind": "harmonic", "k": 1.5, "q": 0.5}, "table": [{"name": "h", "move": {"t": "H", "dt": 2.0, "steps": 6}}]}))
     w.append(("isobaric", {"driver": "Isobaric", "T": 800.0, "P": 0.01, "cycles": 3, "atoms": {**gas, "triclinic": True}, "calc": {"kind": "soft"}, "table": [{"name": "c", "move": {"t": "C", "op": {"t": "Aniso", "mv": 0.05}}, "min": 1}, {"name": "d", "move": D(), "min": 1}]}))
     w.append(("isotension", {"driver": "Isotension", "T": 800.0, "P": 0.01, "S": [[0.01, 0.002, 0], [0.002, 0.0, 0], [0, 0, -0.01]], "cycles": 3, "atoms": gas, "calc": {"kind": "soft"}, "table": [{"name": "c", "move": {"t": "C", "op": {"t": "Shape", "mv": 0.05}, "scale": False}}, {"name": "i", "move": {"t": "C", "op": {"t": "Iso", "mv": 0.05}}}, {"name": "d", "move": D("Box")}]}))
@@ -215,18 +216,20 @@ def run(spec):
         at5[seed] = s1[min(5, len(s1) - 1)]
         # fresh interpreter twin
         if spec["fresh"] and (si in (0, 4)[: spec["fresh"]] or (spec["fresh"] > 2 and si == 2)):
-            s3 = child_stream(w, seed, steps)
-            if s3 is None:
-                rec.inconclusive.append("fresh-interpreter twin failed to run")
-            else:
+            for hs in (1, 2, 3)[: (3 if "forced" in spec["name"] else 1)]:
+                s3 = child_stream(w, seed, steps, hashseed=hs + seed % 997)
+                if s3 is None:
+                    rec.inconclusive.append("fresh-interpreter twin failed to run")
+                    continue
                 rec.count("fresh_process_twins")
                 rec.evaluations += 1
                 if nontrivial:
-                    rec.case(spec["name"], seed, "fresh-interpreter")
+                    rec.case(spec["name"], seed, "fresh-interpreter", hs)
                 d = first_diff(s1, s3)
                 if d is not None:
                     kind = "seed-zero" if seed == 0 else "seed-nonzero"
-                    rec.viol(f"C06/not-reproducible/{kind}/{w['driver']}", f"a fresh interpreter with seed {seed} diverges at step {d}", {**wit, "first_divergent_step": d, "twin": "fresh interpreter, other PYTHONHASHSEED"})
+                    rec.viol(f"C06/not-reproducible/{kind}/{w['driver']}", f"a fresh interpreter with seed {seed} diverges at step {d}", {**wit, "first_divergent_step": d, "twin": f"fresh interpreter, PYTHONHASHSEED={hs + seed % 997}"})
+                    break
         rec.sample({**wit, "digest_head": s1[:3], "files": {k: i1[k] for k in ("log_bytes", "traj_bytes", "restart_bytes")}}, cap=2)
     ks = list(at5)
     for a in range(len(ks)):
@@ -237,11 +240,11 @@ def run(spec):
     return rec.out()
 
 
-def child_stream(w, seed, steps):
+def child_stream(w, seed, steps, hashseed=1):
     from qv import env
 
     e = dict(os.environ)
-    e["PYTHONHASHSEED"] = str(1 + seed % 1000)
+    e["PYTHONHASHSEED"] = str(hashseed)
     e["PYTHONPATH"] = env.VERIF + os.pathsep + env.SRC
     payload = json.dumps({"w": w, "seed": seed, "steps": steps})
     try:
